@@ -35,8 +35,13 @@ def one(m):
             b=subprocess.run(['go','build','./pfcpiface/'],cwd=repo,capture_output=True,text=True,env=dict(os.environ,GOFLAGS='-mod=mod',GOPROXY='off'))
             if b.returncode!=0:
                 print('MUTANT-DOES-NOT-COMPILE',m['name'],b.stderr[:300]); bad+=1; return
-            r=subprocess.run([V+'/bin/govc','check','-repo',repo,'-verif',vd,'-prop',m['property'],'-tier','quick'],capture_output=True,text=True)
-            viol=[l for l in r.stdout.split('\n') if l.startswith('VIOLATION')]
+            if 'verify_fn' in m:
+                # cheap form for mutants of one function: its own obligations only (govc verify), not the whole property
+                r=subprocess.run([V+'/bin/govc','verify','-repo',repo,'-fn',m['verify_fn']],capture_output=True,text=True)
+                viol=['VIOLATION '+l.strip() for l in r.stdout.split('\n') if l.strip().startswith('FAIL')]
+            else:
+                r=subprocess.run([V+'/bin/govc','check','-repo',repo,'-verif',vd,'-prop',m['property'],'-tier','quick'],capture_output=True,text=True)
+                viol=[l for l in r.stdout.split('\n') if l.startswith('VIOLATION')]
             hit=[l for l in viol if m['expect'] in l]
             if r.returncode==1 and hit:
                 ok+=1; print('caught  %-28s %s  (%d violation lines)'%(m['name'],m['expect'],len(viol)))
